@@ -102,6 +102,28 @@ def scalar_case(task):
             if len(out['bad']) > 5:
                 break
     out['rows'] = N
+    # --- the same matrix from integer-typed and single-precision impulses
+    # ("for all real input fields": the dtype of the samples must not change
+    # the weights; an integer field has a non-integer derivative)
+    try:
+        for idx, col in cols.items():
+            for dt, tol in ((np.int64, TOL), (np.float32, 2e-6)):
+                if dt is np.float32 and any(
+                        idx[a] != 0 for a in range(3) if a != axis):
+                    continue
+                e = np.zeros(shape, dtype=dt)
+                e[idx] = 1
+                r = np.asarray(op(e))
+                out['entries'] += col.size
+                if r.shape != col.shape or not (
+                        np.abs(r - col).max() <= tol * scale):
+                    out['bad'].append(('dtype', np.dtype(dt).name, list(idx),
+                                       str(r.dtype)))
+                    break
+            if out['bad']:
+                break
+    except Exception as ex:     # noqa: BLE001
+        out['bad'].append(('dtype', 'raised', repr(ex)[:120]))
     # --- superposition along the axis (justifies reading the matrix)
     line = [0, 0, 0]
     rng = np.random.RandomState(7)
